@@ -133,18 +133,24 @@ def throttle_with_mapper_(
 
             def on_next(x: Any) -> None:
                 nonlocal has_value
-                if has_value and _id[0] == current_id:
-                    observer.on_next(value)
+                if _id[0] == current_id:
+                    emit = has_value
+                    pending = value
+                    has_value = False
+                    if emit:
+                        observer.on_next(pending)
 
-                has_value = False
                 d.dispose()
 
             def on_completed() -> None:
                 nonlocal has_value
-                if has_value and _id[0] == current_id:
-                    observer.on_next(value)
+                if _id[0] == current_id:
+                    emit = has_value
+                    pending = value
+                    has_value = False
+                    if emit:
+                        observer.on_next(pending)
 
-                has_value = False
                 d.dispose()
 
             d.disposable = throttle.subscribe(
